@@ -139,7 +139,7 @@ def _norm_axes(axis, ndim):
 _NPRED = {
     "sum": np.sum, "mean": np.mean, "prod": np.prod, "max": np.max, "min": np.min, "std": np.std, "var": np.var,
     "any": np.any, "all": np.all, "argmax": np.argmax, "argmin": np.argmin, "median": np.median,
-    "average": np.average, "ptp": np.ptp, "nansum": np.nansum,
+    "average": np.average, "ptp": np.ptp, "nansum": np.nansum, "amax": np.amax, "amin": np.amin,
     "add.reduce": np.add.reduce, "multiply.reduce": np.multiply.reduce, "maximum.reduce": np.maximum.reduce,
     "logical_or.reduce": np.logical_or.reduce,
 }
@@ -487,7 +487,7 @@ def axis_args(n, arg_only=False, lvl=2):
 
 _METHOD_REDUCERS = ["sum", "mean", "prod", "max", "min", "std", "var", "any", "all", "argmax", "argmin"]
 _METHOD_REDUCERS_Q = ["sum", "max", "std", "any", "argmax"]
-_NP_ONLY_REDUCERS = ["median", "average", "ptp", "nansum"]
+_NP_ONLY_REDUCERS = ["median", "average", "ptp", "nansum", "amax", "amin"]  # amax / amin: distinct function objects from np.max / np.min in numpy 2
 _UFUNC_REDUCE = ["add.reduce", "multiply.reduce", "maximum.reduce", "logical_or.reduce"]
 
 
